@@ -52,6 +52,10 @@ def jobs(tier, seed):
             "two-share-bg-param": [F([S(1), R([S(1), O(1, [(2, [])])], bg=1, bgp=True)], bg=1)],
             "wip-rule3": [F([R([S(3)], tags=["wip"], bg=1)])],
         })
+    # several scenarios of one rule below a FEATURE background (each has its own copy of the inherited steps)
+    js.append(Job("seq.rule-2sc-below-feature-bg", "vlib.stage1:h_stage1",
+                  {"shapes": [F([R([S(1), S(1)], bg=1)], bg=2)], "opts": {"out_dom": {"*": [0, 2]}, "undef": False}, "checks": base},
+                  reach=REACH, min_paths=20, cost=100, validate=100))
     for name, sh in shapes.items():
         opts = {"dry_run": "sym"} if "param" not in name else {"out_dom": {"*": [0, 2]}}
         js.append(Job("seq.%s" % name, "vlib.stage1:h_stage1",
